@@ -26,6 +26,18 @@ TECH = {
 "C19": "error-position postcondition monitor on every rejected compile()",
 "C20": "black-box CLI monitor: real subprocesses + in-process main(); output vs in-process find().values()",
 }
+COMMON = ("; all observed calls are subject to seeded host conditions (non-main thread, deep call stack, raised recursion limit, deep-copied / pickled "
+          "compiled queries) and worker shards alternate between the plain interpreter, python -O and package-warnings-as-errors")
+TECH["C01"] += "; concurrent part (threads with injected GIL hand-offs) and a stream of same-shaped wide documents"
+TECH["C02"] += "; long flat chains evaluated from a band of call-stack depths"
+TECH["C03"] += "; long-sweep of flat repetition forms"
+TECH["C06"] += "; sequences of comparisons; deep comparands from a band of call-stack depths"
+TECH["C07"] += "; arrays of thousands of elements; one compiled slice applied to many lengths"
+TECH["C08"] += "; concurrent path()/paths()/items() with injected GIL hand-offs"
+TECH["C12"] += "; concurrent str()/hash() on shared compiled queries"
+TECH["C13"] += "; pumped strings and a repetition battery up to the 1024-character bound"
+TECH["C17"] += "; linear-time membership test of the permitted orderings on wide documents"
+TECH["C19"] += "; scale battery; concurrent rejected compiles on one environment"
 checks = []
 for i in range(1, 21):
     pid = "C%02d" % i
@@ -41,7 +53,7 @@ for i in range(1, 21):
                           "text": "Held on the monitored executions of this run (counts, construct ledgers and samples are in the evidence file). Runtime monitoring does not discharge the universal quantifier; bounded sub-spaces that are enumerated completely are marked exhaustive for that space only. Workload and oracle: " + mod.RULE,
                           "design_ref": "DESIGN.md section 5 (%s)" % pid},
         "level_note": "; ".join(getattr(mod, "ASSUMPTIONS", [])),
-        "technique": TECH[pid]})
+        "technique": TECH[pid] + COMMON})
 m = {"version": 1,
      "setup_cmd": "./setup.sh",
      "hooks": {"guard": "JSONPATH_RFC9535_VERIF",
